@@ -7,6 +7,7 @@ import Driver.Pwhash
 import Driver.Rand
 import Driver.Serde
 import Driver.TypeState
+import Driver.Prot
 /-
 Line-protocol driver.  One request per line:  `<id> <op> <arg>…` (byte strings
 in hex, `-` = empty).  One answer per line: `<id>\t<model answer>\t<spec answer>`
@@ -37,6 +38,9 @@ def handle (op : String) (args : List String) : Ans :=
   | some a => a
   | none =>
   match TypeState.handle op args with
+  | some a => a
+  | none =>
+  match Prot.handle op args with
   | some a => a
   | none => ("bad-op", "bad-op")
 
